@@ -86,14 +86,43 @@ def check(ctx, src):
     carry = lv_stmt.targets[0].id if lv_stmt is not None and isinstance(lv_stmt.targets[0], ast.Name) else None
     ctx.check(norm(shift.iter) == "self._repl_results_symbols", "REPL-SHIFT", key + "|order", f"the shift iterates `{norm(shift.iter)}`, not the symbols in order",
               REL, shift.lineno, witness="results are shifted in the wrong direction", detail="iterates self._repl_results_symbols")
-    sw = shift.body[0] if len(shift.body) == 1 else None
     loopvar = shift.target.id if isinstance(shift.target, ast.Name) else None
     want = f"self.locals[{loopvar}], {carry} = {carry}, self.locals[{loopvar}]"
-    okswap = (isinstance(sw, ast.Assign) and len(sw.targets) == 1 and isinstance(sw.targets[0], ast.Tuple) and isinstance(sw.value, ast.Tuple)
-              and [norm(e) for e in sw.targets[0].elts] == [f"self.locals[{loopvar}]", carry]
-              and [norm(e) for e in sw.value.elts] == [carry, f"self.locals[{loopvar}]"])
-    ctx.check(okswap, "REPL-SHIFT", key + "|swap", f"the shift body is `{norm(sw) if sw else None}`, expected `{want}`", REL, shift.lineno,
-              detail=want)
+    # the loop body, executed on symbols: afterwards the slot holds what was carried in and the carry holds the slot's old value
+    slot = f"self.locals[{loopvar}]"
+    env = {slot: "SLOT0", carry: "CARRY0"}
+
+    def ev(e):
+        if isinstance(e, ast.Name):
+            return env.get(e.id, f"?{e.id}")
+        if isinstance(e, ast.Subscript) and str(norm(e)) == slot:
+            return env[slot]
+        if isinstance(e, ast.Tuple):
+            return [ev(x) for x in e.elts]
+        raise ValueError(norm(e))
+
+    def put(t, v):
+        if isinstance(t, ast.Name):
+            env[t.id] = v
+        elif isinstance(t, ast.Subscript) and str(norm(t)) == slot:
+            env[slot] = v
+        elif isinstance(t, ast.Tuple) and isinstance(v, list) and len(v) == len(t.elts):
+            for a, b in zip(t.elts, v):
+                put(a, b)
+        else:
+            raise ValueError(norm(t))
+
+    okswap = None
+    try:
+        for st in shift.body:
+            if not (isinstance(st, ast.Assign) and len(st.targets) == 1):
+                raise ValueError(norm(st))
+            put(st.targets[0], ev(st.value))
+        okswap = env[slot] == "CARRY0" and env.get(carry) == "SLOT0"
+    except (ValueError, KeyError):
+        okswap = None
+    ctx.decide("REPL-SHIFT", key + "|swap", okswap if carry and loopvar else None, f"one step of the shift leaves slot={env.get(slot)} carry={env.get(carry)}; expected `{want}`", REL, shift.lineno,
+               witness="*2 and *3 receive the wrong values", detail=want)
     init = mod.func("REPL.__init__")
     sy = [n for n in ast.walk(init) if isinstance(n, ast.Assign) and any(_is_self_attr(t, "_repl_results_symbols") for t in n.targets)] if init else []
     ctx.need(len(sy) == 1, "REPL.__init__ no longer defines _repl_results_symbols")
